@@ -17,10 +17,10 @@ import numpy as np
 
 from lib import core, gen, oracle, denote, graphcap
 
-EXTRACTORS = ["Unravel"]
+EXTRACTORS = ["Unravel", "Update"]
 # Props/C01Lower.lean: correctness of the lowering algorithm of `id` for all descriptions (built and audited with C01)
 # Props/C01Xlate.lean: `_unravel` (translated from /repo's source on every run) computes the coordinate form `Denote.peel`
-EXTRA_PROPS = ["C01Lower", "C01LowerOps", "C01Xlate"]
+EXTRA_PROPS = ["C01Lower", "C01LowerOps", "C01Xlate", "C14Join"]
 BACKENDS = [None, "numpy", "numpy.numpylike", "numpy.einsum"]
 
 
@@ -491,6 +491,15 @@ def run(ctx):
         from props import lower_tie
         from props.c17 import SizedCall, variants
         lower_tie.lower_tie(ctx, 24 if ctx.quick else 400, SizedCall, variants)
+        # Props/C14Join.lean (`lower_get_at_correct`): the get_at lowering model (`AtLower.lowerGetAt`) against traced graphs
+        import random as _random
+        from props import at_tie
+        grng = _random.Random(f"c01-at:{ctx.seed}")
+        gcalls = []
+        for _ in range(30 if ctx.quick else 400):
+            c = gen.gen_get_at(grng)
+            gcalls.append(("get_at", c["desc"], [tuple(s) for s in c["shapes"]], dict(c["kwargs"])))
+        at_tie.at_tie(ctx, 20 if ctx.quick else 300, gcalls, arange_dtype=ctx.facts.get("Update", {}).get("arange_dtype"), only="get_at")
     if ctx.broken:
         n_calls *= 3
     ctx.extra["rule"] = ("grammar-directed einx calls (id with grouping/diagonal/1-axes/broadcast/concat/ellipsis, reductions, elementwise, dot, get_at, argmax/argmin, "
